@@ -5,6 +5,7 @@ import (
 	"math/rand"
 
 	"github.com/grindlemire/go-lucene/verif/core"
+	"github.com/grindlemire/go-lucene/verif/gen"
 	"github.com/grindlemire/go-lucene/verif/mon"
 	"github.com/grindlemire/go-lucene/verif/qt"
 )
@@ -93,7 +94,7 @@ func (p c07) RunBatch(ctx *core.Ctx, batch int) {
 		}
 	default:
 		r := ctx.Rand("chains")
-		leaves := qt.FullLeaves()
+		leaves := append(qt.FullLeaves(), qt.HostileLeaves(r, gen.HostileStrings, 16, true)...)
 		for i := 0; i < 1200; i++ {
 			var t *qt.Node
 			if i%2 == 0 {
